@@ -1672,7 +1672,7 @@ class Engine(object):
         if len(res) != 1:
             raise SpecError("quantifier body forks")
         body = self.truth(res[0][1], P)
-        vs = [b.t for b in bound]
+        vs = [b.payload[0] if isinstance(b, Opaque) else b.t for b in bound]      # an instant is bound through its microseconds
         if name == "exists":
             return [(P, Bool(z3.Exists(vs, body)))]
         pats = self.infer_patterns(vs, body)
@@ -1989,6 +1989,8 @@ class Engine(object):
                 # find the sort
                 if key.startswith("list.len.") or key == "$type":
                     self.heap_array(P, key, IntS)
+                elif key.startswith("list.$pos."):
+                    self.heap_array(P, key, z3.ArraySort(IntS, IntS))
                 elif key.startswith("list.elems."):
                     ek = key[len("list.elems."):].replace("~", ":")
                     self.heap_array(P, key, z3.ArraySort(IntS, self.esort(ek)))
